@@ -52,6 +52,31 @@ func joinToks(toks []Tok) string {
 func c17Mutate(r *rand.Rand, text string) (string, string) {
 	edits := 1 + r.Intn(3)
 	kind := ""
+	if r.Intn(12) == 0 {
+		// rule level: one rule of the document appears twice (same name), possibly with another body
+		toks, _ := Lex([]byte(text))
+		var starts []int
+		for i, t := range toks {
+			if t.Kind == "RULE" {
+				starts = append(starts, i)
+			}
+		}
+		if len(starts) > 0 {
+			k := r.Intn(len(starts))
+			end := len(toks)
+			if k+1 < len(starts) {
+				end = starts[k+1]
+			}
+			dup := append([]Tok(nil), toks[starts[k]:end]...)
+			if r.Intn(2) == 0 && len(dup) > 8 {
+				dup[len(dup)-3] = Tok{"", "1"} // change something in the body
+			}
+			if r.Intn(2) == 0 {
+				return joinToks(append(dup, toks...)), "rule-duplicate"
+			}
+			return joinToks(append(toks, dup...)), "rule-duplicate"
+		}
+	}
 	if r.Intn(2) == 0 {
 		// token level
 		toks, _ := Lex([]byte(text))
